@@ -14,6 +14,7 @@ def kindOf : String → Kind
   | "NL" => .nl
   | "INDENT" => .indent
   | "DEDENT" => .dedent
+  | "FSTRING_MIDDLE" => .fstringMiddle
   | _ => .other
 
 /-- A token is sent as `[kindName, string, srow, scol, erow, ecol]`. -/
@@ -56,7 +57,8 @@ def pieceJson : Piece → Json
   | .verbatim s => Json.arr #["verbatim", txt s]
 
 def loopJson (ts : List Token) (detail : Bool) : Json :=
-  let base := [("joined", txt (loopText ts)), ("final", txt (postprocess ts))]
+  let base := [("joined", txt (loopText ts)), ("final", txt (postprocess ts)),
+    ("raises", if loopRaises ts then Json.str "IndexError" else Json.null)]
   if detail then
     Json.mkObj (base ++ [("emits", Json.arr ((loop ts).map fun e =>
       Json.arr #[Json.num (e.pad : Nat), pieceJson e.piece]).toArray)])
@@ -98,7 +100,8 @@ def specText : Handler := fun j => do
     Json.mkObj [("noBlankLine", Json.bool (Spec.noBlankLineB t)),
       ("blankFix", Json.bool (suppressBlankLines t == t)),
       ("passFix", Json.bool (suppressUselessPass t == t)),
-      ("hintLines", Json.arr ((splitNl t).filter Spec.isHintLine |>.map txt).toArray)]).toArray)])
+      ("hintLines", Json.arr ((splitNl t).filter Spec.isHintLine |>.map txt).toArray),
+      ("markerLines", Json.arr ((splitNl t).filter Spec.startsWithMarker |>.map txt).toArray)]).toArray)])
 
 def handlers : List (String × Handler) :=
   [("c13.model.pass", modelPass), ("c13.model.loop", modelLoop),
